@@ -45,6 +45,10 @@ func (ups *Socket) Connect(manager cert.TlsConfig, mustSecure bool) error {
 		}
 		a.Scheme = addr.PlusEnd.ReplaceAllString(a.Scheme, "")
 		log.Debugf("Dialing TLS %s", a.String())
+		if tlsConfig.ServerName == "" {
+			// verify against the configured host name, not against the address it resolved to
+			tlsConfig.ServerName = ups.Address.Hostname()
+		}
 
 		c, err = tls.Dial(n.Network(), n.String(), tlsConfig)
 	} else {
